@@ -577,6 +577,18 @@ func (h *handler) runStream(
 		}
 	}
 	writerFunc := func(ctx context.Context, r *goatorepo.Rpc) error {
+		if r.GetTrailer() != nil {
+			// The trailer closes the stream whatever has become of the stream's
+			// context: a handler that returns because its deadline has passed
+			// reports exactly that with its trailer. Only the end of the
+			// connection stops it.
+			select {
+			case <-h.ctx.Done():
+				return h.ctx.Err()
+			case h.writeChan <- r:
+			}
+			return nil
+		}
 		select {
 		case <-ctx.Done():
 			return ctx.Err()
